@@ -108,6 +108,8 @@ def make_measure(ctx, model):
             y = 0.0
         elif branch == "y1":
             y = 1.0
+        elif branch == "ym1":
+            y = -1.0  # a finite-activity index with integer-shaped special functions
         else:
             # one exactly representable value per branch of the activity index (a symbolic y makes every power a two-argument
             # uninterpreted function and the queries do not terminate): y in {-1/2, 1/2, 3/2}
@@ -120,7 +122,7 @@ def make_measure(ctx, model):
 
 def concrete_measure(model, params=None):
     if model.startswith("CGMY"):
-        y = {"neg": -0.5, "01": 0.5, "12": 1.5, "y0": 0.0, "y1": 1.0}[model.split(".")[1]]
+        y = {"neg": -0.5, "01": 0.5, "12": 1.5, "y0": 0.0, "y1": 1.0, "ym1": -1.0}[model.split(".")[1]]
         return CGMY._CGMYLevyMeasure(CGMY.CGMYParameters(c=0.5, g=5.0, m=6.0, y=y))
     if params:
         try:
@@ -328,6 +330,9 @@ def harnesses(tier):
         for n, kinds in ((0, ("pos", "neg", "neginf", "posinf")), (1, ("pos", "neg", "neginf", "posinf", "str", "neg0", "pos0")), (2, ("str",))):
             for kind in kinds:
                 hs.append(Harness(f"CGMY.{br}.n{n}.{kind}", h_moment, {"model": f"CGMY.{br}", "n": n, "kind": kind}, max_paths=400, timeout_ms=40000))
+    # CGMY with a negative activity index (finite activity: the mass of intervals touching or containing 0 is finite), y = -1
+    for kind in ("pos", "neg", "pos0", "neg0", "str"):
+        hs.append(Harness(f"CGMY.ym1.n0.{kind}", h_moment, {"model": "CGMY.ym1", "n": 0, "kind": kind}, max_paths=400, timeout_ms=40000))
     for model in ("HEM", "VG"):
         for n in (0, 1, 2):
             hs.append(Harness(f"xn_dispatch.{model}.{n}", h_xn_dispatch, {"model": model, "n": n}, max_paths=400))
@@ -342,6 +347,15 @@ ATTEMPTED = ["C09.attempted." + s for s in ("derivative_in_upper_end_is_integran
                                             "additive_over_adjacent_intervals", "additive_with_infinite_end", "straddling_is_sum_of_the_two_sides")]
 
 
+def _error_replays(tier):
+    """reference scenario of every moment harness (same model / order / interval kind), run when its symbolic paths end in an exception"""
+    out = {}
+    for h in harnesses(tier):
+        if h.fn is h_moment:
+            out[h.name] = (replay_moment, {"model": h.params["model"], "n": h.params["n"], "kind": h.params["kind"], "via_xn": h.params.get("via_xn", False)})
+    return out
+
+
 def main(tier):
     bounds = {"models": "HEM, Merton, Variance-Gamma: every parameter value (symbolic), n = 0, 1, 2 (dedicated functions), VG n <= 4 (quick) / 7 (thorough) through integrate_against_xn (one side, infinite ends, straddling, intervals ending exactly at 0)",
               "intervals": "negative side, positive side, straddling zero (where finite), infinite ends; truncation bounds anywhere",
@@ -350,7 +364,7 @@ def main(tier):
               "outside": "CGMY for other activity indices (powers with fractional / symbolic exponents: the queries do not terminate) and every generic quadrature fallback "
                          "(scipy.integrate.quad is C code); "
                          "n >= 3 for HEM / Merton (fallback to quad); signs of odd moments"}
-    return run_check(PID, tier, harnesses(tier), expect=EXPECT, attempted=ATTEMPTED, bounds=bounds,
+    return run_check(PID, tier, harnesses(tier), error_replays=_error_replays(tier), expect=EXPECT, attempted=ATTEMPTED, bounds=bounds,
                      assumptions=COMMON_ASSUMPTIONS + ["derivative rules of exp, erf, E1 (symx/ad.py DERIVATIVE_RULES); exp / sqrt axioms; pi as a constant in (3.14159, 3.1416)",
                                                        "meta-step: F(a,a) = 0 and dF/db = integrand on a branch imply F = integral on that branch (fundamental theorem of calculus)"])
 
